@@ -77,8 +77,13 @@ impl Server {
     }
 
     pub fn bad_request_response(message: String) -> Vec<u8> {
+        Server::bad_request_response_to_method(message, METHOD.get.to_string())
+    }
+
+    // a response to HEAD or OPTIONS must not carry a body, so the method of the request being answered matters
+    pub fn bad_request_response_to_method(message: String, method: String) -> Vec<u8> {
         let error_request = Request {
-            method: METHOD.get.to_string(),
+            method,
             request_uri: "".to_string(),
             http_version: "".to_string(),
             headers: vec![],
@@ -156,7 +161,7 @@ impl Server {
         let app_processing = app.execute(&request, &connection);
         if app_processing.is_err() {
             let message = app_processing.as_ref().err().unwrap().to_string();
-            let response = Server::bad_request_response(message);
+            let response = Server::bad_request_response_to_method(message, request.method.to_string());
 
             let boxed_stream = stream.write_all(response.borrow());
             if boxed_stream.is_ok() {
